@@ -120,6 +120,7 @@ def main():
     ap.add_argument("--start", default="", help="skip everything before this name")
     ap.add_argument("--seeded", action="store_true")
     ap.add_argument("--mutants", action="store_true")
+    ap.add_argument("--benign", action="store_true", help="property-preserving changes under /verif/benign: every check must stay silent")
     ap.add_argument("--tier", default="quick")
     ap.add_argument("--layers", default="chk,rel")
     ap.add_argument("--keep", action="store_true")
@@ -127,11 +128,18 @@ def main():
     a = ap.parse_args()
     only = set(x for x in a.only.split(",") if x)
     items = []
-    if a.mutants or not a.seeded:
+    if a.benign:
+        bd = os.path.join(ROOT, "benign")
+        for d in sorted(os.listdir(bd)) if os.path.isdir(bd) else []:
+            meta = os.path.join(bd, d, "meta.json")
+            if os.path.exists(meta):
+                mj = json.load(open(meta))
+                items.append({"name": "benign-" + d, "props": mj.get("check_with") or ["C%02d" % i for i in range(1, 21)], "expect": "silent", "patch": os.path.join(bd, d, "patch.diff"), "layers": mj.get("layers"), "why": mj.get("what", "")})
+    if (a.mutants or not a.seeded) and not a.benign:
         import mutants
         for m in mutants.MUTANTS:
             items.append({"name": m["name"], "props": m["props"], "expect": m.get("expect", "detect"), "edits": m["edits"], "layers": m.get("layers"), "why": m.get("why", "")})
-    if a.seeded or not a.mutants:
+    if (a.seeded or not a.mutants) and not a.benign:
         sd = os.path.join(ROOT, "seeded")
         for d in sorted(os.listdir(sd)) if os.path.isdir(sd) else []:
             meta = os.path.join(sd, d, "meta.json")
